@@ -10,20 +10,23 @@ TECH = "symbolic execution of the real Python code with z3 (own engine symx): ex
 
 CHECKS = {
     # id: (design_ref, text)
-    "C01": ("5/C01", "Whole real Aligner.align run symbolically on tiny maps (<= 3 reference x 2 query labels, <= 3 seeds, both strands, symbolic "
-            "coordinates, seeds and scoring parameters): on every feasible path the returned pairs are checked to be a one-to-one collinear matching of existing labels."),
-    "C03": ("5/C03", "Real AlignmentResultRow.cigarString on every valid matching of <= 4 (quick) / 5 (thorough) pairs with label gaps <= 3 / 4, both "
-            "orientations, first pair's label numbers unbounded: the string is replayed from the first pair and must give exactly the listed pairs."),
-    "C04": ("5/C04", "Same exploration as C01 with the aligner built by the real WorkflowCoordinatorFactory from symbolic command-line values; one validity "
-            "query per path shows Confidence equals the score recomputed from raw maps, seed and parameters, offsets <= maxPairDistance, spans fully accounted."),
+    "C01": ("5/C01", "Whole real Aligner.align run symbolically on tiny maps (<= 3 x 3 labels, <= 3 seeds, both strands, symbolic coordinates, seeds and scoring parameters: "
+            "~9e4 paths), stages chain->resolve->row from generated valid pre-states (2 segments of up to 5 positions over up to 6 x 6 labels, reachability-filtered), the public join "
+            "of two generated records, and every record of every file of the four multi-pass modes: listed pairs are a one-to-one collinear matching of existing labels, >= 1 pair."),
+    "C03": ("5/C03", "Real AlignmentResultRow.cigarString on every valid matching of <= 4 (quick) / 6 (thorough) pairs with label gaps <= 3 / 4, both orientations, one or two "
+            "segments, first pair's label numbers unbounded: the string is replayed from the first pair and must give exactly the listed pairs; plus the same replay on every "
+            "record (first-pass, second-pass, joined) the multi-pass harness writes, with the record's own Orientation."),
+    "C04": ("5/C04", "Same explorations as C01 with the aligner built by the real WorkflowCoordinatorFactory from symbolic command-line values; one validity query per path shows "
+            "Confidence equals the score recomputed from raw maps, seed and parameters, offsets <= maxPairDistance, segment spans fully accounted, no label paired twice in a record; "
+            "Confidence of every written multi-pass record (incl. joined) = sum of the reported positions' scores; concrete Args.parse -> factory wiring confirmation."),
     "C12": ("5/C12", "Real AlignerEngine.align on <= 3 x 3 (quick) / 5 x 4 (thorough) labels, both strands, coincident labels, label-number offsets; all "
             "coordinates, seed, window end, maxDistance symbolic; clauses (a)-(e) of the statement as validity queries per path."),
     "C13": ("5/C13", "Real getSegments on lists of <= 6 (quick) / 8 (thorough) scored positions with unbounded real scores and thresholds; each clause of the "
             "statement is one validity query per path, incl. the converse for the empty result."),
     "C14": ("5/C14", "Real SegmentChainer.chain with an arbitrary admissible scorer (<= 4/5 segments; maximality against every order-respecting subset in one "
             "query), real SequentialityScorer.getScore in non-linear real arithmetic (both strands/variants), and real chainer+scorer on 2-3 segments."),
-    "C15": ("5/C15", "Same exploration as C01; resolveConflicts' input and every pairwise resolution are observed: results are contiguous sub-runs of inputs with "
-            "recomputed scores, no two result segments share a label or cross, pairs outside the overlap are kept."),
+    "C15": ("5/C15", "Same explorations as C01 (Level 1 + generated pre-states + public join); resolveConflicts' input and every pairwise resolution are observed: results are "
+            "contiguous sub-runs of inputs, positions not re-scored, scores recomputed, no two result segments share a label or cross, pairs outside the overlap are kept."),
     "C02": ("5/C02", "Real trim / getPositionsWithSiteIds / AlignmentResultRow.create / getUnalignedFragments / resolve and the real XMAP writer through pandas; "
             "every numeric cell of the text is a marker mapping back to its symbolic term; an independent parser feeds validity queries for each field of each record "
             "(first-pass, second-pass on a real fragment, joined), untrimmed symbolic query."),
